@@ -40,11 +40,16 @@ well-formed `x` that is not `Excluded`: every COO of any rank, and every GCXS wh
 recognises and whose `compressed_axes` it can store. -/
 theorem npz_roundtrip_partial (axesOk : List Int → Bool) (x : Arr α)
     (hwf : x.WF axesOk) (hex : ¬ Excluded x) : roundtrip axesOk x = .ok x.norm := by
+  -- what `save_npz` wrote is known through `lookup` only (Lemmas/Npz: `save_*_lookup`, from `decide`d facts about the
+  -- generated tables); `load_npz` sees the members through `lookup` only, so it may be run on them in a fixed order
+  obtain ⟨m, hm⟩ := save_ok x
+  have hrt : roundtrip axesOk x = load axesOk m := by simp [roundtrip, hm]
+  rw [hrt]
   cases x with
   | coo s c d f =>
+    rw [load_of_agree axesOk (save_coo_lookup s c d f hm)]
     have := cooCtor_wf axesOk s c d f hwf
-    simpa [roundtrip, save, writeList, Gen.npzCommon, Gen.npzWrite, branchMatches, Arr.clsName, Arr.exact,
-      collect, Arr.attr, load, Gen.npzRequire, loadFrom, fetchAll, lookup, construct, Arr.norm] using this
+    simpa [canonMembers, load, Gen.npzRequire, loadFrom, fetchAll, lookup, construct, Arr.norm] using this
   | gcxs e s d i p ca f =>
     have hcls : e = true ∨ gcxsExactTest = false := by
       cases e
@@ -53,13 +58,13 @@ theorem npz_roundtrip_partial (axesOk : List Int → Bool) (x : Arr α)
         · rfl
         · exact absurd (Or.inl ⟨rfl, hg⟩) hex
       · left; rfl
-    have hw := writeList_gcxs e s d i p ca f hcls
+    rw [load_of_agree axesOk (save_gcxs_lookup e s d i p ca f hcls hm)]
     cases ca with
     | some l =>
       have hl0 : l ≠ [] := hwf.2.2.1
       have hdec : decodeAxes l = some l := by simp [decodeAxes, hl0]
       have hctor := gcxsCtor_wf axesOk e s d i p (some l) (some l) f hwf (Or.inl rfl) (fun h => absurd h (by simp))
-      simp [roundtrip, save, hw, collect, Arr.attr, encAxes, load, Gen.npzRequire, loadFrom, fetchAll, lookup,
+      simp [canonMembers, encAxes, load, Gen.npzRequire, loadFrom, fetchAll, lookup,
         construct, hdec, hctor, Arr.norm]
     | none =>
       have hflags : Gen.npzNoneAxesAsEmpty = true ∧ Gen.npzEmptyAxesAsNone = true := by
@@ -70,7 +75,7 @@ theorem npz_roundtrip_partial (axesOk : List Int → Bool) (x : Arr α)
       have henc : (encAxes none : Payload α) = .ints [] := by simp [encAxes, h1]
       have hdec : decodeAxes [] = none := by simp [decodeAxes, h3]
       have hctor := gcxsCtor_wf axesOk e s d i p none none f hwf (Or.inl rfl) (fun _ => by simp [checkAxes])
-      simp [roundtrip, save, hw, collect, Arr.attr, henc, load, Gen.npzRequire, loadFrom, fetchAll, lookup,
+      simp [canonMembers, henc, load, Gen.npzRequire, loadFrom, fetchAll, lookup,
         construct, hdec, hctor, Arr.norm]
 
 /-- **npz_roundtrip_coo.** COO arrays of every rank (0-d included), pattern, fill value: exact round trip,
@@ -107,8 +112,8 @@ theorem npz_gcxs1d_counterexample (h : Gen.npzNoneAxesAsEmpty = false) :
     w1d.WF strictlyIncreasing ∧ Excluded w1d ∧ roundtrip strictlyIncreasing w1d = .error .value := by
   refine ⟨by decide, ?_, ?_⟩
   · right; exact ⟨rfl, fun hh => by rw [h] at hh; exact absurd hh.1 (by simp)⟩
-  · have hw := writeList_gcxs true [4] [5, 7] [1, 3] [] none (0 : Int) (Or.inl rfl)
-    simp [w1d, roundtrip, save, hw, collect, Arr.attr, encAxes, h, load, Gen.npzRequire, loadFrom, fetchAll, lookup]
+  · revert h
+    decide
 
 /-- **npz_subclass_counterexample.** While the dispatch tests `type(matrix) is GCXS`, a CSR matrix is
 saved without `indices`/`indptr`/`compressed_axes` and `load_npz` raises RuntimeError on the file. -/
@@ -242,12 +247,11 @@ theorem gcxs_member_damage_confined (axesOk : List Int → Bool) (e : Bool) (s :
       · rfl
       · exact absurd (Or.inl ⟨rfl, hg⟩) hex
     · left; rfl
-  have hw := writeList_gcxs e s d i p (some l) f hcls
-  simp [save, hw, collect, Arr.attr, encAxes] at hs
-  subst hs
+  have hlk := save_gcxs_lookup e s d i p (some l) f hcls hs
   obtain ⟨_, _, hl0, _, hl2, _, _⟩ := hwf
   have hnocoords : lookup m' "coords" = none := by
-    rw [hsame "coords" (by decide) (by rcases hk with h | h | h <;> subst h <;> decide)]; simp [lookup]
+    rw [hsame "coords" (by decide) (by rcases hk with h | h | h <;> subst h <;> decide), hlk "coords" (by decide)]
+    simp [canonMembers, lookup]
   have hwf' := load_accepted_wf axesOk m' y (fun c hc => by rw [hnocoords] at hc; exact absurd hc (by simp)) hload
   obtain ⟨b, hb, hbc, hall, hff⟩ := load_no_defaulting axesOk m' y hload
   cases y with
@@ -260,22 +264,22 @@ theorem gcxs_member_damage_confined (axesOk : List Int → Bool) (e : Bool) (s :
     have hk1 : "shape" ≠ k := by rcases hk with h | h | h <;> subst h <;> decide
     have hk2 : "compressed_axes" ≠ k := by rcases hk with h | h | h <;> subst h <;> decide
     have hk3 : "fill_value" ≠ k := by rcases hk with h | h | h <;> subst h <;> decide
-    rw [hsame "shape" (by decide) hk1] at hms
-    rw [hsame "compressed_axes" (by decide) hk2] at hma
-    rw [hsame "fill_value" (by decide) hk3] at hmf
-    simp [lookup] at hms hma hmf
+    rw [hsame "shape" (by decide) hk1, hlk "shape" (by decide)] at hms
+    rw [hsame "compressed_axes" (by decide) hk2, hlk "compressed_axes" (by decide)] at hma
+    rw [hsame "fill_value" (by decide) hk3, hlk "fill_value" (by decide)] at hmf
+    simp [canonMembers, encAxes, lookup] at hms hma hmf
     subst hms; subst hma; subst hmf; subst he'
     have hdec : decodeAxes l = some l := by simp [decodeAxes, hl0]
     have hna : normAxes s (some l) = some l := by simp [normAxes, hl2]
     rw [hdec, hna] at hca'
     subst hca'
     refine ⟨d', i', p', rfl, hmd, hmi, hmp, fun h => ?_, fun h => ?_, fun h => ?_, hst'⟩
-    · rw [hsame "data" (by decide) (Ne.symm h)] at hmd
-      simp [lookup] at hmd; exact hmd.symm
-    · rw [hsame "indices" (by decide) (Ne.symm h)] at hmi
-      simp [lookup] at hmi; exact hmi.symm
-    · rw [hsame "indptr" (by decide) (Ne.symm h)] at hmp
-      simp [lookup] at hmp; exact hmp.symm
+    · rw [hsame "data" (by decide) (Ne.symm h), hlk "data" (by decide)] at hmd
+      simp [canonMembers, lookup] at hmd; exact hmd.symm
+    · rw [hsame "indices" (by decide) (Ne.symm h), hlk "indices" (by decide)] at hmi
+      simp [canonMembers, lookup] at hmi; exact hmi.symm
+    · rw [hsame "indptr" (by decide) (Ne.symm h), hlk "indptr" (by decide)] at hmp
+      simp [canonMembers, lookup] at hmp; exact hmp.symm
 
 /-- **gcxs_count_damage_rejected.** Take the file of any well-formed GCXS array of two or more dimensions and
 replace ONE of the members `data`, `indices`, `indptr` by anything with a different number of entries (what a
@@ -303,9 +307,10 @@ theorem gcxs_count_damage_rejected (axesOk : List Int → Bool) (e : Bool) (s : 
         · rfl
         · exact absurd (Or.inl ⟨rfl, hg⟩) hex
       · left; rfl
-    have hw := writeList_gcxs e s d i p (some l) f hcls
-    simp [save, hw, collect, Arr.attr, encAxes] at hs
-    subst hs
+    have hlk := save_gcxs_lookup e s d i p (some l) f hcls hs
+    have hmd0 : lookup m "data" = some (.vals d) := by rw [hlk "data" (by decide)]; simp [canonMembers, lookup]
+    have hmi0 : lookup m "indices" = some (.ints i) := by rw [hlk "indices" (by decide)]; simp [canonMembers, lookup]
+    have hmp0 : lookup m "indptr" = some (.ints p) := by rw [hlk "indptr" (by decide)]; simp [canonMembers, lookup]
     obtain ⟨_, ⟨hst1, _, hst2⟩, hl0, _, hl2, _, hl4⟩ := hwf
     have hs2 : 2 ≤ s.length := wf_axes_two_dims hl0 hl2 hl4
     have hsne : s ≠ [] := by intro h0; subst h0; simp at hs2
@@ -316,17 +321,17 @@ theorem gcxs_count_damage_rejected (axesOk : List Int → Bool) (e : Bool) (s : 
     have hdi := hst1 hsne
     have hdi' := hst1' hsne
     rcases hk with hk | hk | hk <;> subst hk
-    · have := hcount (.vals d) (.vals d') (by simp [lookup]) hmd
+    · have := hcount (.vals d) (.vals d') hmd0 hmd
       simp [Payload.count] at this
       have hii := hi (by decide)
       subst hii
       omega
-    · have := hcount (.ints i) (.ints i') (by simp [lookup]) hmi
+    · have := hcount (.ints i) (.ints i') hmi0 hmi
       simp [Payload.count] at this
       have hdd := hd (by decide)
       subst hdd
       omega
-    · have := hcount (.ints p) (.ints p') (by simp [lookup]) hmp
+    · have := hcount (.ints p) (.ints p') hmp0 hmp
       simp [Payload.count] at this
       omega
 
@@ -375,27 +380,8 @@ theorem load_row_order_unchecked :
 /-- **load_determined.** Two member maps that agree on the seven names `load_npz` asks for load the same
 array (or both fail the same way): no other content of the file influences the result. -/
 theorem load_determined (axesOk : List Int → Bool) (m m' : Members α)
-    (h : ∀ k ∈ vocabulary, lookup m k = lookup m' k) : load axesOk m = load axesOk m' := by
-  have key : ∀ (req : List String), (∀ k ∈ req, lookup m k = lookup m' k) → fetchAll m req = fetchAll m' req := by
-    intro req
-    induction req with
-    | nil => intro _; rfl
-    | cons k ks ih =>
-      intro hk
-      unfold fetchAll
-      rw [hk k (by simp), ih (fun k' hk' => hk k' (by simp [hk']))]
-  have main : ∀ (brs : List (String × List String)), (∀ k ∈ brs.flatMap (·.2), lookup m k = lookup m' k) →
-      loadFrom axesOk m brs = loadFrom axesOk m' brs := by
-    intro brs
-    induction brs with
-    | nil => intro _; rfl
-    | cons b rest ih =>
-      intro hk
-      obtain ⟨cls, req⟩ := b
-      unfold loadFrom
-      rw [key req (fun k hk' => hk k (by simp [List.flatMap_cons, hk'])),
-        ih (fun k hk' => hk k (by simp only [List.flatMap_cons, List.mem_append]; exact Or.inr hk'))]
-  exact main _ h
+    (h : ∀ k ∈ vocabulary, lookup m k = lookup m' k) : load axesOk m = load axesOk m' :=
+  loadFrom_congr axesOk _ h
 
 /-! ## damaged files (relative to explicit container hypotheses) -/
 
